@@ -5429,8 +5429,16 @@ class DfaCompileCtx:
 
         for state in self.dfa.states:
             for transition in state.transitions:
-                if not transition.is_fallthrough:
+                if transition.is_fallthrough:
+                    symbols = transition.on_values
+                elif DFTransition.End in transition.on_values:
+                    # a matched `end` consumes nothing either: end() goes on from its target with end-of-input still ahead
+                    symbols = [DFTransition.End]
+                else:
                     continue
+
+                def stays_in_place(t):
+                    return t.is_fallthrough or (symbols == [DFTransition.End] and DFTransition.End in t.on_values)
 
                 visited = set()
                 def consider(transition):
@@ -5445,8 +5453,8 @@ class DfaCompileCtx:
                                 visited.add(i.target)
                                 aux(i.target)
                     else:
-                        real_target = x[transition.on_values]
-                        if real_target and real_target.is_fallthrough and consider(real_target):
+                        real_target = x[symbols]
+                        if real_target and stays_in_place(real_target) and consider(real_target):
                             if real_target.target not in visited:
                                 visited.add(real_target.target)
                                 aux(real_target.target)
@@ -6402,11 +6410,14 @@ class CodegenCtx:
         # Create all transitions for possible conditions
         final_state = state
         redirected_to = set()
+        matched_end_pattern = False
         if unconditional_end_transition:
             result += self._generate_transition_body(unconditional_end_transition, True)
             # a taken end transition that isn't a fallthrough (those re-dispatch on their own) leaves us in its target
             if not unconditional_end_transition.is_fallthrough:
                 final_state = unconditional_end_transition.target
+                # (an Else that stands for end-of-input is a data pattern running into it: that one does not match)
+                matched_end_pattern = DFTransition.End in unconditional_end_transition.on_values
                 # ... unless one of its actions (a break under an if, ...) sent us somewhere else instead
                 for action in unconditional_end_transition.actions:
                     for subaction in action.all_subactions():
@@ -6424,6 +6435,10 @@ class CodegenCtx:
 
         if final_state in self.dfa.accepting_states:
             result.add(f"return {self.program_name.upper()}_DONE;")
+        elif matched_end_pattern:
+            # the program goes on after the `end` pattern and end-of-input is still what comes next: whatever follows without consuming
+            # (a yield, an if, the handler of a try whose body wants more input) is dispatched from where we are now
+            result.add("goto repeatswitch;")
         else:
             result.add(f"return {self.program_name.upper()}_FAIL;")
         return result.value()
